@@ -649,7 +649,11 @@ where
             //= https://www.rfc-editor.org/rfc/rfc9114#section-6.2.3
             //# They MAY also be
             //# sent on connections where no data is currently being transferred.
-            ready!(self.poll_grease_stream(cx));
+
+            // The frame in `res` has already been taken off the control stream: it must be
+            // handed to the caller even while the grease stream cannot make progress (no
+            // stream credit, blocked write). The grease stream is polled again on later calls.
+            let _ = self.poll_grease_stream(cx);
         }
 
         Poll::Ready(Ok(res))
